@@ -126,6 +126,17 @@ func c03NestedType(c *Config) reflect.Type {
 			ft := []reflect.Type{reflect.SliceOf(inner), inner, reflect.PtrTo(inner)}[i%3]
 			fs = append(fs, reflect.StructField{Name: fmt.Sprintf("G%d", i), Type: ft, Tag: reflect.StructTag(fmt.Sprintf(`avp:"%s"`, g.Name))})
 		}
+		// ... and every plain leaf of the alphabet as a slice of a natural Go holder type
+		holders := map[atoms.Kind]reflect.Type{atoms.KU32: reflect.TypeOf([]uint32(nil)), atoms.KU64: reflect.TypeOf([]uint64(nil)), atoms.KI32: reflect.TypeOf([]int32(nil)),
+			atoms.KI64: reflect.TypeOf([]int64(nil)), atoms.KEnum: reflect.TypeOf([]int32(nil)), atoms.KF32: reflect.TypeOf([]float32(nil)), atoms.KF64: reflect.TypeOf([]float64(nil)),
+			atoms.KUTF8: reflect.TypeOf([]string(nil)), atoms.KIdent: reflect.TypeOf([]string(nil)), atoms.KOctet: reflect.TypeOf([][]byte(nil)), atoms.KTime: reflect.TypeOf([]time.Time(nil))}
+		for k := atoms.Kind(0); k < atoms.NKinds; k++ {
+			d, ok := c.A.Plain[k]
+			ht, ok2 := holders[k]
+			if ok && ok2 {
+				fs = append(fs, reflect.StructField{Name: fmt.Sprintf("L%d", int(k)), Type: ht, Tag: reflect.StructTag(fmt.Sprintf(`avp:"%s"`, d.Name))})
+			}
+		}
 		t = reflect.StructOf(fs)
 	}
 	c03NestedTypes[c.Name] = t
@@ -165,6 +176,7 @@ func c03Eval(c *Config, cs C03Case, measure bool) (res string) {
 			res = strings.Replace(res, "PANIC:", "PANIC while "+phase+":", 1)
 		}
 	}()
+	_ = c03NestedType(c) // built once per configuration, outside any measured window
 	var before uint64
 	if measure {
 		before = totalAlloc()
@@ -213,6 +225,9 @@ func c03Eval(c *Config, cs C03Case, measure bool) (res string) {
 				diam.MessageBufferLength = mbls[i]
 			}
 			phase = fmt.Sprintf("reading message %d of the stream", i+1)
+			if measure {
+				before = totalAlloc() // the decode of this message alone (not the inspections of the ones before)
+			}
 			m, err := diam.ReadMessage(rd, dp)
 			if s := checkAlloc(); s != "" {
 				return s
@@ -444,6 +459,17 @@ func c03Seeds(c *Config) (seeds [][]byte, small [][]byte) {
 			seeds = append(seeds, refcodec.EncodeMessage(hd[0], []refcodec.Node{{Code: d.Code, Flags: mflag(d.Must), Payload: []byte(txt)}}))
 		}
 	}
+	// one code three times in a message, the middle occurrence under a vendor id the dictionary does
+	// not know (codes are per-vendor name spaces: it decodes as opaque data next to typed siblings)
+	for _, a := range firstOfKind {
+		if a.Vendor != 0 {
+			continue
+		}
+		n := atoms.RefNodes([]atoms.N{a})[0]
+		foreign := refcodec.Node{Code: n.Code, Flags: n.Flags | 0x80, Vendor: 4242, Payload: []byte{1, 2, 3, 4, 5}}
+		seeds = append(seeds, refcodec.EncodeMessage(hd[0], []refcodec.Node{n, foreign, n}))
+		seeds = append(seeds, refcodec.EncodeMessage(hd[0], []refcodec.Node{foreign, n}))
+	}
 	seeds = append(seeds, enc(hd[0], core), enc(hd[1], nil))
 	small = append(small, enc(hd[0], core[:3]), enc(hd[0], []atoms.N{firstOfKind[0]}))
 	return
@@ -662,7 +688,7 @@ func c03Enum(ctx *ev.Ctx, fn func(*Config, C03Case)) string {
 			emit(c, "message", fmt.Sprintf("grouped AVP nested in itself %d deep", depth), nestedMessage(c, depth))
 		}
 	}
-	return "(0) every stream of <=3 pieces over {messages with 8 / 600 / 2036 / 5000-byte bodies, a bare header claiming 2056 bytes, headers claiming 620 / 3000 bytes followed by 10 / 1500} read message by message with the exported diam.MessageBufferLength set to one of {1024, 4096, 512} before each read; (i) every byte string of length <=1 and a lattice of length 2 (thorough: all) on every entry point; 20-byte headers with every declared length 0..2100 and 2^k-1, 2^k, 2^k+1 up to 2^24-1 x 4 commands x R bit, header only and with the body supplied; (ii) AVP shapes code {one per type, vendor variants, groups, undefined} x flags {0,0x20,0x40,0x80,0xC0,0xFF} x declared length 0..44 x bytes available 0..44 (quick: the neighbourhood of declared, multiples of 8) as DecodeAVP input, as message body and as group payload; (iii) every datatype decoder on payloads of 0..40 bytes x 4 fill patterns (address families 1, 257, 65535, 32897), the rendered text bounded by 32 x supplied + 256 bytes; (iv) every single structured corruption (each length field to 16 boundary values, every flag bit, code to undefined/0/2^31-1, truncation at every offset with and without a consistent header) of well-formed seeds covering every type and nesting, and every pair of corruptions on small seeds (thorough: triples on one seed); (v) a grouped AVP nested 1..1000 deep in-process with every inspection (String/PrettyDump are cubic in depth), 3000 deep with re-serialisation measured, and 6*10^4 (thorough) and 2*10^6 deep in child processes under an 8 GiB address-space cap. Message input of the configurations built on dict.Default is also decoded with the dictionary argument omitted (nil) and inspected the same way. On everything that decodes: String, PrettyDump, Serialize, WriteTo, Unmarshal into CER/CEA/DWR/DWA, a generic struct, a struct of fixed-size byte arrays and a struct that maps every Grouped AVP of the configuration's alphabet onto a nested struct / pointer / slice, FindAVP/FindAVPs/FindAVPsWithPath by code and name. Distinct by (configuration, entry point, bytes)."
+	return "(0) every stream of <=3 pieces over {messages with 8 / 600 / 2036 / 5000-byte bodies, a bare header claiming 2056 bytes, headers claiming 620 / 3000 bytes followed by 10 / 1500} read message by message with the exported diam.MessageBufferLength set to one of {1024, 4096, 512} before each read; (i) every byte string of length <=1 and a lattice of length 2 (thorough: all) on every entry point; 20-byte headers with every declared length 0..2100 and 2^k-1, 2^k, 2^k+1 up to 2^24-1 x 4 commands x R bit, header only and with the body supplied; (ii) AVP shapes code {one per type, vendor variants, groups, undefined} x flags {0,0x20,0x40,0x80,0xC0,0xFF} x declared length 0..44 x bytes available 0..44 (quick: the neighbourhood of declared, multiples of 8) as DecodeAVP input, as message body and as group payload; (iii) every datatype decoder on payloads of 0..40 bytes x 4 fill patterns (address families 1, 257, 65535, 32897), the rendered text bounded by 32 x supplied + 256 bytes; (iv) every single structured corruption (each length field to 16 boundary values, every flag bit, code to undefined/0/2^31-1, truncation at every offset with and without a consistent header) of well-formed seeds covering every type and nesting, and every pair of corruptions on small seeds (thorough: triples on one seed); (v) a grouped AVP nested 1..1000 deep in-process with every inspection (String/PrettyDump are cubic in depth), 3000 deep with re-serialisation measured, and 6*10^4 (thorough) and 2*10^6 deep in child processes under an 8 GiB address-space cap. Message input of the configurations built on dict.Default is also decoded with the dictionary argument omitted (nil) and inspected the same way. On everything that decodes: String, PrettyDump, Serialize, WriteTo, Unmarshal into CER/CEA/DWR/DWA, a generic struct, a struct of fixed-size byte arrays and a struct that maps every Grouped AVP of the configuration's alphabet onto a nested struct / pointer / slice and every plain leaf onto a slice of a Go holder type (seeds repeat one code three times, once under a foreign vendor id), FindAVP/FindAVPs/FindAVPsWithPath by code and name. Distinct by (configuration, entry point, bytes)."
 }
 
 func nestedMessage(c *Config, depth int) []byte {
